@@ -296,7 +296,7 @@ Proof.
   destruct k as [c t|t].
   - (* file *)
     unfold unzip_entry, entry_of. simpl fst; simpl snd. simpl e_name.
-    rewrite sanitise_walker_file by assumption. simpl depth_exceeded.
+    rewrite sanitise_walker_file by assumption. simpl depth_exceeded. change (rec_applies None) with false. cbn [andb].
     unfold e_isdir. simpl e_name. rewrite last_join_noslash by assumption.
     simpl u_fs. rewrite HP. unfold mkdir_all, fexists. rewrite Hparne. destruct Hpar as [mt Hpar]. rewrite <- Hparne, Hpar.
     simpl file_too_large. cbv iota beta. unfold write_file. rewrite HDp. rewrite <- HDp. rewrite HP.
@@ -326,7 +326,7 @@ Proof.
     + rewrite map_app. simpl. apply nodup_snoc; [apply (i_nodup _ _ _ I)|assumption].
   - (* directory *)
     unfold unzip_entry, entry_of. simpl fst; simpl snd. simpl e_name.
-    rewrite sanitise_walker_dir by assumption. simpl depth_exceeded.
+    rewrite sanitise_walker_dir by assumption. simpl depth_exceeded. change (rec_applies None) with false. cbn [andb].
     unfold e_isdir. simpl e_name. rewrite ends_with_slash_dir.
     simpl u_fs. unfold mkdir_all, fexists. rewrite HDp, <- HDp, Hnone.
     assert (Hsplit : D ++ p = (D ++ removelast p) ++ [last p []]).
